@@ -151,7 +151,7 @@ for _n in TY:
             exec(_GEN.format(name=_n, grp=_g, sig=GV_SIG, args=GV_ARGS, pre=GV_PRE[_g], builder='gv', vocab=_vocab,
                              wit=tuple(_wit), timeout=120, tiers=_tiers))
 
-_TD_OK = {'range', 'range_seq', 'tag_int', 'tag_ext', 'tag_adj', 'nested', 'nested_ragged', 'date_text', 'pattern_text',
+_TD_OK = {'range', 'range_seq', 'tag_int', 'tag_ext', 'tag_adj', 'opt_tag_ext', 'union_tag_adj', 'nested', 'nested_ragged', 'date_text', 'pattern_text',
           'decimal_num', 'fraction_num'}
 shared.emit_td(globals(), "accepts exactly the members, typed image", names=[k for k in shared.TD if k not in _TD_OK])
 
